@@ -289,6 +289,7 @@ CaseResult run_seg(const RunCtx &ctx, TapeReader &t, unsigned size_hint) {
     }
 
     size_t cfgsel = layer == 2 ? t.below(5) : 0;
+    const bool nested = layer == 1 && t.chance(1, 8); // segmentation called from inside a caller's parallel region
 
     auto describe = [&]() {
         std::ostringstream d;
@@ -324,6 +325,7 @@ CaseResult run_seg(const RunCtx &ctx, TapeReader &t, unsigned size_hint) {
     if (eps == 0) res.label("eps0");
     if (eps <= 4) res.label("eps_le4");
     if (meta.has_dup) res.label("dups");
+    if (nested) res.label("called_inside_parallel_region");
     if (meta.excluded_known) res.label("excluded_known_KF1_double_steep_capped");
 
     uint64_t ops = 0, unchecked_large = 0, npoints = 0, nsegs = 0;
@@ -377,7 +379,7 @@ CaseResult run_seg(const RunCtx &ctx, TapeReader &t, unsigned size_hint) {
         try {
             auto in = [&](size_t i) { return keys[i]; };
             auto out = [&](const CS<K> &cs) { segs.push_back(cs); };
-            count = pgm::internal::make_segmentation_par(n, eps, in, out);
+            run_maybe_nested(nested, [&] { count = pgm::internal::make_segmentation_par(n, eps, in, out); });
         } catch (const std::exception &e) {
             pgm::verif::SegLog<K>::sink = nullptr;
             res.fail(std::string("make_segmentation_par threw on in-domain input: ") + e.what());
